@@ -49,6 +49,13 @@ package termincommittee
 //@   requires header != nil
 //@   ensures [iff-the-bytes-are-the-encoding-of-the-fields] result == Canonical(header)
 
+// a vote is canonical when its signed header is byte-identical to its field-by-field re-encoding (what a NEW_VIEW nests)
+//@ pred CanonVC(vcm *interfaces.ViewChangeMessage) = content(vcm.content.SignedHeader().Raw()) == ReencVC(vcm.content.SignedHeader())
+//@ func isCanonicalViewChange
+//@   props C11 C08 C20
+//@   requires vcm != nil && vcm.content != nil
+//@   ensures [iff-the-header-bytes-are-their-own-reencoding] result == CanonVC(vcm)
+
 //@ pred TicOK(tic *TermInCommittee) = tic.State != nil && tic.messageFactory != nil && len(tic.committeeMembers) >= 4 && tic.storage != nil && tic.keyManager != nil && tic.blockUtils != nil && tic.electionTrigger != nil
 //@   | && SumMW(tic.committeeMembers, len(tic.committeeMembers)) < 2^64
 //@   | && tic.messageFactory.memberId == tic.myMemberId && tic.messageFactory.keyManager == tic.keyManager && SignsAs(tic.keyManager, tic.myMemberId)
@@ -93,6 +100,19 @@ package termincommittee
 //@   | && pm.content.SignedHeader().BlockHeight() == tic.State.height && pm.content.SignedHeader().View() == tic.State.view
 //@ pred EmittedCommit(tic *TermInCommittee, cm *interfaces.CommitMessage) = CommitOK(tic, cm) && cm.content.Sender().MemberId() == tic.myMemberId
 //@   | && cm.content.SignedHeader().BlockHeight() == tic.State.height
+// the conditions under which the leader-to-be counts a vote (every rejecting branch of HandleViewChange excluded)
+//@ pred ProofAcceptable(tic *TermInCommittee, p *protocol.PreparedProof, h primitives.BlockHeight, v primitives.View) = ProofGood(p, h, v, tic.keyManager, tic.committeeMembers)
+//@   | && p.PreprepareSender().MemberId() == LeaderOf(tic.committeeMembers, p.PreprepareBlockRef().View())
+//@ pred AcceptsVote(tic *TermInCommittee, vcm *interfaces.ViewChangeMessage) = tic.myMemberId == LeaderOf(tic.committeeMembers, vcm.content.SignedHeader().View())
+//@   | && vcm.content.SignedHeader().View() >= tic.State.view
+//@   | && vcm.content.SignedHeader().MessageType() == protocol.LEAN_HELIX_VIEW_CHANGE
+//@   | && VerifiedMsg(tic.keyManager, vcm.content.SignedHeader().BlockHeight(), vcm.content.SignedHeader().Raw(), vcm.content.Sender().MemberId(), vcm.content.Sender().Signature())
+//@   | && (HasProof(vcm.content) ==> ProofAcceptable(tic, vcm.content.SignedHeader().PreparedProof(), tic.State.height, vcm.content.SignedHeader().View()))
+//@   | && IsMember(tic.committeeMembers, vcm.content.Sender().MemberId())
+//@   | && CanonVC(vcm)
+//@   | && (vcm.block == nil ==> !HasProof(vcm.content))
+//@   | && (vcm.block != nil ==> Commits(tic.blockUtils, vcm.content.SignedHeader().BlockHeight(), vcm.block, vcm.content.SignedHeader().PreparedProof().PreprepareBlockRef().BlockHash()))
+
 // two correct members of one committee at one height: same member list, and their key managers give the same verdicts
 // (A-KM-AGREE: verification is a function of the public data, the same at every correct node)
 //@ pred SameCommittee(a *TermInCommittee, b *TermInCommittee) = len(a.committeeMembers) == len(b.committeeMembers)
@@ -255,6 +275,7 @@ package termincommittee
 //@   requires [FilterOK] pm != nil && pm.content != nil && pm.content.SignedHeader().BlockHeight() == tic.State.height && pm.content.Sender().MemberId() != tic.myMemberId
 //@   modifies @TIC, ghost:countedP, ghost:countedC
 //@   ensures [C11:O11.2.an-acceptable-prepare-is-counted] old(AcceptsPrepare(tic, pm)) ==> countedP[pm]
+//@   must_fail [C11:vacuity.the-acceptance-condition-is-satisfiable] !old(AcceptsPrepare(tic, pm))
 
 //@ func (*TermInCommittee).HandleCommit
 //@   requires [term-not-yet-committed] ncommitted == 0
@@ -266,6 +287,7 @@ package termincommittee
 //@   requires [FilterOK] cm != nil && cm.content != nil && cm.content.SignedHeader().BlockHeight() == tic.State.height && cm.content.Sender().MemberId() != tic.myMemberId
 //@   modifies @TIC, ghost:countedC
 //@   ensures [C11:O11.2.an-acceptable-commit-is-counted] old(AcceptsCommit(tic, cm)) ==> countedC[cm]
+//@   must_fail [C11:vacuity.the-acceptance-condition-is-satisfiable] !old(AcceptsCommit(tic, cm))
 
 //@ func (*TermInCommittee).checkPreparedLocally
 //@   requires [term-not-yet-committed] ncommitted == 0
@@ -410,7 +432,9 @@ package termincommittee
 //@   ensures [leader-of-term-committee] result == LeaderOf(tic.committeeMembers, view)
 
 //@ func (*TermInCommittee).isViewChangeValid
-//@   props C07 C08 C09 C12
+//@   props C07 C08 C09 C12 C11
+//@   ensures [C11:complete] vcm.SignedHeader().MessageType() == protocol.LEAN_HELIX_VIEW_CHANGE && VerifiedMsg(tic.keyManager, vcm.SignedHeader().BlockHeight(), vcm.SignedHeader().Raw(), vcm.Sender().MemberId(), vcm.Sender().Signature())
+//@     | && (HasProof(vcm) ==> ProofAcceptable(tic, vcm.SignedHeader().PreparedProof(), tic.State.height, vcm.SignedHeader().View())) ==> result == nil
 //@   safety iface
 //@   requires TicOK(tic) && vcm != nil
 //@   ensures [sound.signed] result == nil ==> VerifiedMsg(tic.keyManager, vcm.SignedHeader().BlockHeight(), vcm.SignedHeader().Raw(), vcm.Sender().MemberId(), vcm.Sender().Signature())
@@ -505,12 +529,14 @@ package termincommittee
 //@ func (*TermInCommittee).HandleViewChange
 //@   requires [term-not-yet-committed] ncommitted == 0
 //@   ensures [O9.lock-kept] LockKept(tic, old(tic.preparedLocally), old(tic.preparedLocally.isPreparedLocally), old(tic.preparedLocally.latestView))
-//@   props C08 C09 C07 C10 C12
+//@   props C08 C09 C07 C10 C12 C11
 //@   safety iface
 //@   requires TicOK(tic)
 //@   inv GhostInv(tic)
 //@   requires [FilterOK] vcm != nil && vcm.content != nil && vcm.content.SignedHeader().BlockHeight() == tic.State.height && vcm.content.Sender().MemberId() != tic.myMemberId
 //@   modifies @TIC, ghost:countedVC
+//@   ensures [C11:O11.2.an-acceptable-vote-is-counted] old(AcceptsVote(tic, vcm)) ==> countedVC[vcm]
+//@   must_fail [C11:vacuity.the-acceptance-condition-is-satisfiable] !old(AcceptsVote(tic, vcm))
 
 // the election path of the leader-to-be
 //@ func (*TermInCommittee).checkElected
